@@ -10,9 +10,10 @@ python3 "$V/driver/lockall.py" sh -c 'cd "$0/coq" && find Common C[0-9][0-9] -na
 echo "== Print Assumptions summary"
 echo "closed: $(grep -c 'Closed under the global context' "$V/build/stranger_make.log")  axioms-blocks: $(grep -c '^Axioms:' "$V/build/stranger_make.log")"
 grep -A3 '^Axioms:' "$V/build/stranger_make.log" | head -20
+if [ "$1" = "--no-build" ]; then :; fi
 echo "== coqchk"
 cp=$(mktemp -d "$V/build/strangerchk.XXXX")
-(cd "$V/coq" && find Common C[0-9][0-9] -name '*.vo' | cpio -pdm "$cp" 2>/dev/null)
+(cd "$V/coq" && find Common C[0-9][0-9] -name '*.vo' -exec cp --parents {} "$cp" \;)
 mods=$(cd "$V/coq" && ls C[0-9][0-9]/Props*.v | sed 's/\.v$//; s#/#.#; s/^/CJ./')
 (cd "$cp" && timeout 7200 coqchk -silent -o -R "$cp" CJ $mods > "$V/build/stranger_coqchk.log" 2>&1; echo "coqchk rc=$?")
 tail -25 "$V/build/stranger_coqchk.log"
